@@ -140,7 +140,6 @@ func mkSpec(name string, cfg *params.ChainConfig, num uint64) *spec {
 var (
 	cfgFrontier  = &params.ChainConfig{ChainId: bi(77)}
 	cfgHomestead = &params.ChainConfig{ChainId: bi(77), HomesteadBlock: bi(0), EIP150Block: bi(0)}
-	cfgHomeHF1   = &params.ChainConfig{ChainId: bi(77), HomesteadBlock: bi(0), EIP150Block: bi(0), HF: params.ForkMap{1: bi(0)}}
 	cfgByz       = &params.ChainConfig{ChainId: bi(77), HomesteadBlock: bi(0), EIP150Block: bi(0), EIP155Block: bi(0), EIP158Block: bi(0), ByzantiumBlock: bi(0)}
 	cfgConst     = &params.ChainConfig{ChainId: bi(77), HomesteadBlock: bi(0), EIP150Block: bi(0), EIP155Block: bi(0), EIP158Block: bi(0), ByzantiumBlock: bi(0), ConstantinopleBlock: bi(0)}
 	// a schedule whose forks lie at separate heights, to see the switch happen
